@@ -18,8 +18,8 @@ LIMIT = 1 << 17
 
 
 class Layout:
-    def __init__(self, plen, files, done, seed=1):
-        self.plen, self.files, self.seed = plen, files, seed
+    def __init__(self, plen, files, done, seed=1, off=None):
+        self.plen, self.files, self.seed, self.off = plen, files, seed, off
         self.total = sum(files)
         self.n = (self.total + plen - 1) // plen
         self.done = done if done is not None else "1" * self.n
@@ -36,7 +36,8 @@ class Layout:
         return "plen=%d total=%d done=%s seed=%d files=%s%s%s%s" % (  # noqa
             self.plen, self.total, self.done, self.seed, ",".join(map(str, self.files)),
             " enc=%d" % int(enc) if enc else "", " out=1" if (out and enc) else "",
-            (" role=%s" % role if role else "") + (" rate=%d" % rate if rate else ""))
+            (" role=%s" % role if role else "") + (" rate=%d" % rate if rate else "") +
+            (" off=%s" % self.off if self.off else ""))
 
     def parts(self, i):
         """[(begin, end)] offsets inside piece i of the non-empty file parts it is made of"""
@@ -52,7 +53,7 @@ class Layout:
 
 def parse_head(h):
     kv = dict(t.split("=", 1) for t in h.split() if "=" in t)
-    return Layout(int(kv["plen"]), [int(x) for x in kv["files"].split(",")], kv["done"], int(kv["seed"]))
+    return Layout(int(kv["plen"]), [int(x) for x in kv["files"].split(",")], kv["done"], int(kv["seed"]), kv.get("off"))
 
 
 LAYOUTS = [
@@ -294,6 +295,17 @@ HAND_THR = [
     "D:0 R:1:20000:12768 W:inf Q:2000 W:700 Q:1100 W:300 Q:9000 W:5000 Q:20000 W:inf",
     "D:0 R:0:0:16384 R:1:17232:6000 W:100 Q:1023 W:inf Q:1 W:inf Q:4000 W:2500 K Q:3000 W:inf Q:30000 W:inf",
 ]
+# partial seeding: the files holding every incomplete piece are PRIORITY_OFF (+ update_priorities), so nothing
+# is wanted any more although piece 2 never verified (junk on disk); requests for it must not be answered
+PARTIAL = [
+    Layout(32768, [50000, 70001, 5], "1101", off="1,2"),
+    Layout(2048, [1, 2, 3, 700, 0, 4294], "101", seed=4, off="5"),
+]
+HAND_PARTIAL = [
+    "D:0 R:2:0:16384 W:inf",
+    "D:0 R:0:0:100 R:2:5:100 R:1:0:100 W:inf",
+    "D:0 R:1:0:64 W:inf R:2:32767:1 W:inf",
+]
 HAND_BIG = [   # layout 5 (512 KiB pieces): the 2^17 clause on its own
     "D:0 R:0:0:131072 W:inf R:1:0:131073 R:2:0:151424 R:0:0:524288 R:1:1000:262144 W:inf R:0:5:10 W:inf",
     "D:0 R:1:175712:131072 R:1:175712:131073 R:1:175713:131072 W:70000 W:inf",
@@ -324,6 +336,16 @@ def gen(seed, tier):
             for e in (0, 1):
                 cases.append(L.head(e, False, None, 20000) + " | " + " ".join(normalize(h.split(), 20000)))
                 stats["hand"] += 1
+    stats["partial_seeding"] = 0
+    for L in PARTIAL:
+        for e in (0, 1):
+            for h in HAND_PARTIAL:
+                h2 = h if L.n > 2 and L.done[2:3] == "0" else h.replace("R:2:", "R:1:").replace("R:1:0:64", "R:0:0:64").replace("1:32767:1", "1:2047:1")
+                cases.append(L.head(e) + " | " + " ".join(normalize(h2.split())))
+                stats["partial_seeding"] += 1
+        for j in range(12 if tier == "quick" else 120):
+            cases.append(L.head(r.choice([0, 1])) + " | " + " ".join(gen_stream(r, L, ("valid", "parts", "boundary")[j % 3])))
+            stats["partial_seeding"] += 1
     for e in (False, True):
         for h in HAND_BIG:
             cases.append(LAYOUTS[5].head(e) + " | " + " ".join(normalize(h.split())))
